@@ -283,3 +283,62 @@ def fc_table(assignment: Dict[str, bool]) -> Dict[str, Any]:
         k: EvaluatedFormatConstraint(format_constraint_fulfilled=v, error_message=None if v else f"E{k}")
         for k, v in assignment.items()
     }
+
+
+# -------------------------------------------------------------------------------------------------
+# the library's OWN ready-made evaluators (what most users take): dictionary based ("hardcoded") and
+# ContentEvaluationResult based ones, bound through the evaluator_factory helpers
+# -------------------------------------------------------------------------------------------------
+_cer_var: ContextVar = ContextVar("vf_content_evaluation_result", default=None)
+
+
+def make_cer(rc: Dict[str, str], fc: Dict[str, bool], hints: Dict[str, Optional[str]], fc_msg: Optional[Dict[str, Optional[str]]] = None, packages: Optional[Dict[str, str]] = None):
+    from ahbicht.models.content_evaluation_result import ContentEvaluationResult
+
+    return ContentEvaluationResult(
+        hints=dict(hints),
+        format_constraints={k: EvaluatedFormatConstraint(format_constraint_fulfilled=v, error_message=(fc_msg or {}).get(k) if not v else None) for k, v in fc.items()},
+        requirement_constraints={k: REAL[v] for k, v in rc.items()},
+        packages=dict(packages or {}),
+    )
+
+
+def _provide_cer_data() -> EvaluatableData:
+    from ahbicht.models.content_evaluation_result import ContentEvaluationResultSchema
+
+    cer = _cer_var.get()
+    if cer is None:
+        raise RuntimeError("harness error: no content evaluation result set in this context")
+    return EvaluatableData(body=ContentEvaluationResultSchema().dump(cer), edifact_format=FORMAT, edifact_format_version=VERSION)
+
+
+def install_hardcoded(cer) -> None:
+    """create_hardcoded_evaluators(cer): Dict based RC / FC evaluators, hints provider and package resolver"""
+    from ahbicht.content_evaluation.evaluator_factory import create_hardcoded_evaluators
+    from ahbicht.content_evaluation.token_logic_provider import SingletonTokenLogicProvider
+
+    evaluators = create_hardcoded_evaluators(cer, edifact_format=FORMAT, edifact_format_version=VERSION)
+
+    def configure(binder):
+        binder.bind(TokenLogicProvider, SingletonTokenLogicProvider([*evaluators]))
+        binder.bind_to_provider(EvaluatableDataProvider, lambda: EvaluatableData(body={}, edifact_format=FORMAT, edifact_format_version=VERSION))
+
+    inject.clear_and_configure(configure)
+
+
+def install_cer_based() -> None:
+    """create_content_evaluation_result_based_evaluators(): the answers travel in the evaluatable data (set_cer, context local)"""
+    from ahbicht.content_evaluation.evaluator_factory import create_content_evaluation_result_based_evaluators
+    from ahbicht.content_evaluation.token_logic_provider import SingletonTokenLogicProvider
+
+    evaluators = create_content_evaluation_result_based_evaluators(FORMAT, VERSION)
+
+    def configure(binder):
+        binder.bind(TokenLogicProvider, SingletonTokenLogicProvider([*evaluators]))
+        binder.bind_to_provider(EvaluatableDataProvider, _provide_cer_data)
+
+    inject.clear_and_configure(configure)
+
+
+def set_cer(cer) -> None:
+    _cer_var.set(cer)
